@@ -254,7 +254,8 @@ class IncomingMessageHandler(IncomingMessageHandlerBase):
         """Process an internal version message."""
         try:
             gateway.protocol_version = message.payload
-        except AwesomeVersionException as err:
+        except (AwesomeVersionException, ValueError) as err:
+            # ValueError: a version component is too long to convert to a number.
             raise InvalidMessageError(err, message) from err
         return message
 
